@@ -244,8 +244,10 @@ def batch(arg):
                                 "region_restarted_while_open",
                                 "region_open_at_termination",
                                 "end_not_matching_innermost_start"):
+                            # named by the kinds of transfer AND the
+                            # transformation that accepted the region
                             mech = "region_left_by_" + "_".join(
-                                sorted(set(transfer)))
+                                sorted(set(transfer))) + ":" + hist[0][0]
                         part.violation({
                             "kind": fault[0], "mechanism": mech,
                             "what": "%s input %s: %s" % (hist, key,
@@ -258,6 +260,116 @@ def batch(arg):
                       sample=mod_text[:800] if n == 0 else None)
     finally:
         shutil.rmtree(wd, ignore_errors=True)
+    return part
+
+
+PSYKAL_FILES = {
+    "gocean": ["single_invoke_two_identical_kernels.f90",
+               "single_invoke_two_kernels.f90",
+               "single_invoke_three_kernels.f90",
+               "test12_two_invokes_two_kernels.f90"],
+    "lfric": ["4_multikernel_invokes.f90", "4.1_multikernel_invokes.f90",
+              "4.8_multikernel_invokes.f90", "1.2_multi_invoke.f90",
+              "15.1.2_builtin_and_normal_kernel_invoke.f90"]}
+
+
+def psykal_names_batch(arg):
+    """(stdout of PSyclone's own diagnostics is swallowed)"""
+    import contextlib
+    import io
+    with contextlib.redirect_stdout(io.StringIO()):
+        return _psykal_names_batch(arg)
+
+
+def _psykal_names_batch(arg):
+    """Region names on PSyKAl invokes: each top-level loop of an invoke is
+    wrapped in its own region (profiling / extraction / NaN test / read-only
+    verification), with a fresh transformation object per region, one shared
+    object, or one options dictionary reused for every apply() - none of
+    which asks for aggregation.  The (module, region) identifiers of the
+    PreStart hooks in the generated code must all differ."""
+    import re
+    from psyclone.configuration import Config
+    from psyclone.parse.algorithm import parse
+    from psyclone.psyGen import PSyFactory
+    from psyclone.psyir.nodes import Loop
+    from psyclone.errors import PSycloneError
+    import psyclone
+    part = Part()
+    api = arg["api"]
+    Config.get().api = "gocean1.0" if api == "gocean" else "lfric"
+    if api == "gocean":
+        from psyclone.domain.gocean.transformations import \
+            GOceanExtractTrans as Extract
+        tdir = "gocean1p0"
+    else:
+        from psyclone.domain.lfric.transformations import \
+            LFRicExtractTrans as Extract
+        tdir = "dynamo0p3"
+    from psyclone.psyir.transformations import (ProfileTrans, NanTestTrans,
+                                                ReadOnlyVerifyTrans)
+    base = os.path.join(os.path.dirname(psyclone.__file__), "tests",
+                        "test_files", tdir)
+    for fname in PSYKAL_FILES[api]:
+        path = os.path.join(base, fname)
+        if not os.path.exists(path):
+            part.count("psykal_file_missing")
+            continue
+        for tcls in (Extract, ProfileTrans, NanTestTrans,
+                     ReadOnlyVerifyTrans):
+            for style in ("fresh_object", "shared_object",
+                          "shared_options_dict"):
+                try:
+                    _, info = parse(path, api=Config.get().api)
+                    psy_ = PSyFactory(Config.get().api,
+                                      distributed_memory=False).create(info)
+                except Exception as err:
+                    part.count("psykal_setup_failed:" + type(err).__name__)
+                    break
+                shared = tcls()
+                opts = {"create_driver": False} if tcls is Extract else \
+                    {"dummy_option": 1}
+                nreg = 0
+                for inv in psy_.invokes.invoke_list:
+                    for node in list(inv.schedule.children):
+                        if not isinstance(node, Loop):
+                            continue
+                        try:
+                            if style == "fresh_object":
+                                tcls().apply(node)
+                            elif style == "shared_object":
+                                shared.apply(node)
+                            else:
+                                shared.apply(node, opts)
+                            nreg += 1
+                        except PSycloneError:
+                            part.count("refused:" + tcls.__name__)
+                if nreg < 2:
+                    continue
+                try:
+                    code = str(psy_.gen)
+                except Exception as err:
+                    part.count("psykal_gen_failed:" + type(err).__name__)
+                    continue
+                starts = re.findall(
+                    r'%\s*PreStart\(\s*"([^"]*)"\s*,\s*"([^"]*)"', code,
+                    flags=re.I)
+                part.count("psykal_programs_checked")
+                part.count("psykal_region_names_seen", len(starts))
+                dup = sorted({x for x in starts if starts.count(x) > 1})
+                if len(starts) != nreg:
+                    part.count("psykal_start_count_differs")
+                if dup:
+                    part.violation({
+                        "kind": "region_names_not_unique",
+                        "mechanism": None,
+                        "what": "%s %s, %s, %s: %d regions, identifiers %s "
+                                "used more than once" % (
+                                    api, fname, tcls.__name__, style, nreg,
+                                    dup),
+                        "dedupe": ("names", tcls.__name__, style)})
+                part.case(key=("psykal", api, fname, tcls.__name__, style),
+                          nontrivial=True)
     return part
 
 
@@ -276,6 +388,10 @@ def main(ctx):
              "placements": 5 if ctx.quick else 12,
              "ninputs": 4 if ctx.quick else 6} for i in range(nb)]
     for res in ctx.pmap("vf.checks.c28", "batch", jobs, timeout=3400):
+        if res:
+            ctx.merge(res)
+    for res in ctx.pmap("vf.checks.c28", "psykal_names_batch",
+                        [{"api": "gocean"}, {"api": "lfric"}], timeout=3400):
         if res:
             ctx.merge(res)
     if ctx.counters.get("runs_checked", 0) == 0:
